@@ -391,29 +391,66 @@ pub fn c35_generate(seed: u64) -> DocSpec {
     DocSpec { seed, files, variants }
 }
 
-/// Entities the generated main workspace declares: (kind, name).
-fn declared_entities(spec: &DocSpec) -> (Vec<(String, String)>, Vec<String>) {
-    let mut main = Vec::new();
+/// Entities the generated main workspace declares: ((kind, exported name), how many distinct
+/// entities carry that name). A public type declared in several files (partial class) is one
+/// entity; every `(private)` declaration is an entity of its own file; a `---@namespace` line
+/// prefixes the names declared after it in the same file.
+fn declared_entities(spec: &DocSpec) -> (Vec<((String, String), usize)>, Vec<String>) {
+    let mut public: std::collections::BTreeSet<(String, String)> = Default::default();
+    let mut private: BTreeMap<(String, String), usize> = BTreeMap::new();
     let mut lib = Vec::new();
     for (f, v) in spec.files.iter().zip(&spec.variants) {
         let text = crate::ws::file_text(&f.kind, f.n, *v);
         let is_lib = f.rel.starts_with("lib/");
+        let mut namespace: Option<String> = None;
+        // a file declares a private name at most once as an entity
+        let mut private_here: std::collections::BTreeSet<(String, String)> = Default::default();
         for line in text.lines() {
             let l = line.trim();
+            if let Some(ns) = l.strip_prefix("---@namespace ") {
+                namespace = Some(ns.trim().to_string());
+                continue;
+            }
             for (tag, kind) in [("---@class ", "class"), ("---@enum ", "enum"), ("---@alias ", "alias")] {
                 if let Some(rest) = l.strip_prefix(tag) {
-                    let rest = rest.trim_start_matches("(partial) ").trim_start_matches("(exact) ");
-                    let name: String = rest.chars().take_while(|c| c.is_alphanumeric() || *c == '_' || *c == '.').collect();
-                    if !name.is_empty() {
-                        if is_lib { lib.push(name) } else { main.push((kind.to_string(), name)) }
+                    let mut rest = rest.trim_start();
+                    let mut attrs = "";
+                    if rest.starts_with('(') {
+                        if let Some(end) = rest.find(')') {
+                            attrs = &rest[1..end];
+                            rest = rest[end + 1..].trim_start();
+                        }
+                    }
+                    let bare: String = rest.chars().take_while(|c| c.is_alphanumeric() || *c == '_' || *c == '.').collect();
+                    if bare.is_empty() {
+                        continue;
+                    }
+                    let name = match &namespace {
+                        Some(ns) => format!("{ns}.{bare}"),
+                        None => bare,
+                    };
+                    if is_lib {
+                        lib.push(name);
+                    } else if attrs.split(',').any(|a| a.trim() == "private") {
+                        private_here.insert((kind.to_string(), name));
+                    } else {
+                        public.insert((kind.to_string(), name));
                     }
                 }
             }
         }
+        for k in private_here {
+            *private.entry(k).or_insert(0) += 1;
+        }
     }
-    main.sort();
-    main.dedup();
-    (main, lib)
+    let mut main: BTreeMap<(String, String), usize> = BTreeMap::new();
+    for k in public {
+        *main.entry(k).or_insert(0) += 1;
+    }
+    for (k, n) in private {
+        *main.entry(k).or_insert(0) += n;
+    }
+    (main.into_iter().collect(), lib)
 }
 
 pub fn c35_run(spec_v: &Value, verbose: bool) -> CaseReport {
@@ -511,10 +548,13 @@ pub fn c35_run(spec_v: &Value, verbose: bool) -> CaseReport {
             (false, true) => "heap-layout",
             _ => "?",
         };
-        let kind = format!("{kind}:{dim}");
+        // the dimension is reported, not part of the class: which of the two shows depends on the
+        // heap history of the executing process, and a replay in a fresh process must name the
+        // same class
+        *counters.entry(format!("dimension.{dim}")).or_insert(0) += 1;
         violations.push((
             format!("C35:not-reproducible:{kind}"),
-            format!("{} distinct outputs over {k} hash seeds for a workspace of {} files", distinct.len(), spec.files.len()),
+            format!("{} distinct outputs over {k} sweep points (differs along: {dim}) for a workspace of {} files", distinct.len(), spec.files.len()),
         ));
     }
     // completeness / exactly-once / nothing from libraries (first output)
@@ -524,16 +564,30 @@ pub fn c35_run(spec_v: &Value, verbose: bool) -> CaseReport {
             let (main, lib) = declared_entities(&spec);
             let types = doc.get("types").and_then(|t| t.as_array()).cloned().unwrap_or_default();
             let names: Vec<String> = types.iter().filter_map(|t| t.get("name").and_then(|n| n.as_str()).map(|s| s.to_string())).collect();
-            for (kind, name) in &main {
-                let n = names.iter().filter(|x| *x == name).count();
-                if n == 0 {
-                    violations.push((format!("C35:missing:{kind}"), format!("{kind} {name} declared in the main workspace is not exported")));
-                } else if n > 1 {
-                    violations.push((format!("C35:duplicate:{kind}"), format!("{kind} {name} exported {n} times")));
+            // exported (kind, name) pairs; a name may legitimately be declared once as a class and
+            // once as an enum in different private scopes, so kinds are counted separately
+            let kinded: Vec<(String, String)> = types
+                .iter()
+                .filter_map(|t| {
+                    let name = t.get("name").and_then(|n| n.as_str())?.to_string();
+                    let kind = t.get("type").and_then(|k| k.as_str()).unwrap_or("?").to_string();
+                    Some((kind, name))
+                })
+                .collect();
+            counters.insert("exported_types".to_string(), kinded.len() as u64);
+            for ((kind, name), expected) in &main {
+                let n = kinded.iter().filter(|(k, x)| x == name && (k == kind || k == "?")).count();
+                if n < *expected {
+                    violations.push((format!("C35:missing:{kind}"), format!("{kind} {name}: {expected} declared in the main workspace, {n} exported")));
+                } else if n > *expected {
+                    violations.push((format!("C35:duplicate:{kind}"), format!("{kind} {name}: {expected} declared in the main workspace, exported {n} times")));
+                }
+                if *expected > 1 {
+                    *counters.entry("probe.same_name_scoped_types".to_string()).or_insert(0) += 1;
                 }
             }
             for name in &lib {
-                if names.contains(name) && !main.iter().any(|(_, m)| m == name) {
+                if names.contains(name) && !main.iter().any(|((_, m), _)| m == name) {
                     violations.push(("C35:library-entity-exported".into(), format!("type {name} is declared only in a library root but exported")));
                 }
             }
